@@ -27,7 +27,7 @@ def gen(src, tier):
     habitat = src.weighted("habitat", [("fixed_grid", 3), ("every_step", 3), ("fixedpoint", 4), ("fi_vs_fp", 1.5)])
     strategy = "fixedpoint" if habitat == "fixedpoint" else "fixedinterval"
     cfg = configs.gen_config(src, strategy=strategy, qmax=6, priors=("iwp", "iwp", "iwp", "ioup"),
-                             inits=("exact", "exact", "inexact"))
+                             inits=("exact", "exact", "inexact", "partial", "diffuse"))
     script = scen.gen_history(src, nsteps=(3, 6), p_reject=0.3 if habitat in ("every_step", "fixedpoint") else 0.0)
     n = len(script) - 1
     sc = {"cfg": cfg, "habitat": habitat, "script": script, "eps": src.loguniform("eps", 1e-10, 1e-6)}
